@@ -324,6 +324,8 @@ package objecttree
 //@   ensures [attach_needs_all_parents] attach ==> c != nil && (forall k int :: 0 <= k && k < len(c.PreviousIds) ==> (c.PreviousIds[k] in t.attached))
 //@   ensures [attach_needs_snapshot]    attach ==> (c.SnapshotId in t.attached)
 //@   ensures [verdicts_exclusive]       !(attach && remove)
+//@   ensures [discard_only_when_it_can_never_attach] remove ==> c != nil && (forall k int :: 0 <= k && k < len(c.PreviousIds) ==> (c.PreviousIds[k] in t.attached)) && !(c.SnapshotId in t.attached)
+//@   ensures [missing_parent_means_wait] c != nil && (exists k int :: 0 <= k && k < len(c.PreviousIds) && !(c.PreviousIds[k] in t.attached)) ==> !attach && !remove
 //@   loop 0:
 //@     invariant -1 <= rangeindex && rangeindex < len(c.PreviousIds) && c != nil
 //@     invariant attach ==> (forall k int :: 0 <= k && k <= rangeindex ==> (c.PreviousIds[k] in t.attached))
@@ -415,8 +417,31 @@ package objecttree
 //@   ensures [never_fails] result == nil
 //@ func (*newChangeFlusher).FlushAfterBuild
 //@   ensures [never_fails] result == nil
+// C01/C09: tree reduction picks the DEEPEST intersection of the heads' snapshot paths: the index into
+// the first head's path only ever grows over the heads (the maximum of the intersection points), and
+// the new root is the path entry at that index.
+//@ ghost idxMax Int stable
+//@ ghost newRootArg Ptr stable
+//@ package golang.org/x/exp/slices
+//@ func IndexFunc
+//@   modifies nothing
+//@   ensures -1 <= result && result < len(arg0)
+//@   sets idxMax = ite(result > idxMax, result, idxMax)
+//@ package github.com/anyproto/any-sync/commonspace/object/tree/objecttree
+//@ func (*Tree).makeRootAndRemove
+//@   sets newRootArg = start
 //@ func (*Tree).reduceTree
-//@   trusted
+//@   requires t != nil
+//@   assumes idxMax == 0
+//@   ensures [intersection_index_is_the_maximum] res && old(len(t.headIds)) > 1 && old(len(t.possibleRoots)) != 0 ==> maxIdx == idxMax && 0 <= maxIdx && maxIdx < len(path)
+//@   loop 0:
+//@     invariant idxMax == 0 && (path == nil || rootof(path) > 0)
+//@   loop 1:
+//@     invariant [intersection_index_only_grows] maxIdx == idxMax && 0 <= maxIdx && maxIdx < len(path) && rootof(path) > 0
+//@   loop 2:
+//@     invariant maxIdx == idxMax && 0 <= maxIdx && maxIdx < len(path) && rootof(path) > 0
+//@   loop 3:
+//@     invariant maxIdx == idxMax && 0 <= maxIdx && maxIdx < len(path) && rootof(path) > 0 && path == atloop(path)
 //@ func (*objectTree).AddRawChangesWithUpdater
 //@   callback updater modifies nothing
 //@   requires ot != nil && ot.tree != nil && ot.flusher != nil && ot.storage != nil && umVerifyAll
@@ -485,3 +510,23 @@ package objecttree
 //@   ensures [marks_from_their_heads]       result1 == nil ==> ldBreakpoints == theirHeads
 //@   ensures [streams_to_our_heads]         result1 == nil ==> ldHeads == ot.tree.headIds
 //@   ensures [iterator_is_the_loaded_one]   result1 == nil ==> ifaceptr(result0) == ldIter && cast(ldIter, "*loadIterator").root == ot.rawRoot && cast(ldIter, "*loadIterator").snapshotPath == spPath && cast(ldIter, "*loadIterator").storage == ot.storage
+
+// ---------------------------------------------------------------------------------------------
+// C06/C09: both storage iterators stream changes in the STORED ORDER (the order id is the first and only
+// sort key of the query), whatever they filter on - never in arrival (add-sequence) order.
+//@ ghost qrySortN Int stable
+//@ ghost qrySortKey Str stable
+//@ func iface anystore.Query.Sort
+//@   modifies nothing
+//@   posits result != nil
+//@   sets qrySortN = len(arg1)
+//@   sets qrySortKey = ifacestr(arg1[0])
+//@ func iface anystore.Collection.Find
+//@   modifies nothing
+//@   posits result != nil
+//@ func (*storage).GetAfterAddSeq
+//@   requires s != nil && s.changesColl != nil
+//@   ensures [streams_in_stored_order] qrySortN == 1 && qrySortKey == OrderKey
+//@ func (*storage).GetAfterOrder
+//@   requires s != nil && s.changesColl != nil
+//@   ensures [streams_in_stored_order] qrySortN == 1 && qrySortKey == OrderKey
